@@ -86,6 +86,8 @@ pub enum Ev {
     ClockSpin,
     /// the transport was busy for a while between two pieces of a partially accepted buffer
     SlowWrite { conn: usize, from: u64, to: u64 },
+    /// data arrived at `from`, the waiting task was polled at `to`
+    LateWake { conn: usize, from: u64, to: u64 },
     /// a read found the inbound stream stalled at a gate (the rest of the data has not arrived yet)
     GateHit { conn: usize, offset: usize },
 }
@@ -180,6 +182,8 @@ pub struct World {
     pub frozen: bool,
     pub watchdog_tripped: bool,
     pub clock_spin: bool,
+    /// see `BrokerAct::WakeDelay`
+    pub wake_delay_us: u64,
     /// the slow-transport pause of the current operation has been taken
     pub slow_write_done: bool,
 }
@@ -200,6 +204,7 @@ impl World {
             watchdog_tripped: false,
             clock_spin: false,
             slow_write_done: false,
+            wake_delay_us: 0,
         }))
     }
 
